@@ -20,6 +20,7 @@ import (
 	"fmt"
 	"net/url"
 	"os"
+	"os/exec"
 	"path/filepath"
 	"sort"
 	"strings"
@@ -273,6 +274,7 @@ func main() {
 		}
 	}
 	if run.Fork(16) {
+		cliPhase()
 		finish()
 	}
 	si, sn := vlib.ShardIndex()
@@ -577,6 +579,58 @@ func firstLines(s string, n int) string {
 	return strings.Join(lines, "\n")
 }
 
+// cliPhase runs the separate driver .build/bin/c01cli (built by pre.sh from
+// cmd/c01cli together with the REAL relic binary: /repo's own main package): the
+// real `relic sign`, a real `relic serve` daemon over TLS with client-certificate
+// authentication, the real `relic remote sign` client and the real `relic verify`,
+// for one fixture of every type x keys x digests x {new file, in place}. The
+// cases above go through step-by-step mirrors of the commands (relicx); this
+// phase is what ties those mirrors to the command code itself.
+func cliPhase() {
+	bin := "/verif/.build/bin/c01cli"
+	if _, err := os.Stat(bin); err != nil {
+		fmt.Println("HARNESS-ERROR: " + bin + " is missing (cmd/c01/pre.sh builds it)")
+		os.Exit(2)
+	}
+	args := []string{}
+	if run.Thorough() {
+		args = append(args, "-thorough")
+	}
+	cmd := exec.Command(bin, args...)
+	out, err := cmd.CombinedOutput()
+	seen := map[string]int{}
+	done := false
+	for _, l := range strings.Split(string(out), "\n") {
+		switch {
+		case strings.HasPrefix(l, "CLI-VIOLATION key="):
+			rest := strings.TrimPrefix(l, "CLI-VIOLATION key=")
+			key, desc, _ := strings.Cut(rest, " :: ")
+			seen[key]++
+			run.Violation("cli:"+key, "real command line: "+desc, map[string]any{"driver": "cmd/c01cli", "line": l})
+		case strings.HasPrefix(l, "CLI-DONE"):
+			done = true
+			var cases, commands, v int
+			fmt.Sscanf(l, "CLI-DONE cases=%d commands=%d violations=%d", &cases, &commands, &v)
+			run.Eval(cases)
+			run.Set("real_cli_round_trips", map[string]any{"cases": cases, "commands_run": commands})
+			for i := 0; i < cases; i++ {
+				run.Distinct(fmt.Sprintf("cli-case-%d", i))
+			}
+		case strings.HasPrefix(l, "CLI-HARNESS-ERROR"):
+			fmt.Println("HARNESS-ERROR: c01cli:", l)
+			os.Exit(2)
+		}
+	}
+	if !done {
+		tail := string(out)
+		if len(tail) > 2000 {
+			tail = tail[len(tail)-2000:]
+		}
+		fmt.Printf("HARNESS-ERROR: c01cli did not finish (%v)\n%s\n", err, tail)
+		os.Exit(2)
+	}
+}
+
 func finish() {
 	tier := "quick: per type (A) every generated/fixture shape of the full shape families and its relic-signed twin x {rsaA, SHA-256, default flags} in place, (D) every shape x every single non-default flag value x {rsaA, SHA-256} in place, (B) canonical shape x keys x all six digests x the full product of every registered signer flag's alphabet with a separate output file, (C) canonical shape x {accepted, refused-by-key, refused-by-digest} x {in place, separate output, pre-existing output}"
 	if run.Thorough() {
@@ -587,6 +641,7 @@ func finish() {
 	run.Assume("must-support / must-refuse tables are listed in cmd/c01/types.go with their sources; combinations in neither table and all lenient (legal but unusual) shapes only need 'explicit error XOR verifiable output'")
 	run.Assume("relic has no verifier for cosign artifacts: they are checked by an independent verifier written from the cosign / OCI specifications (cmd/c01/cosign.go)")
 	run.Assume("PE images additionally must carry a correct CheckSum after signing (spec-derived recomputation), which is what the Fixup step of both pipelines is for")
+	run.Assume("the command-line code itself (cmdline/token, cmdline/remotecmd, cmdline/servecmd, cmdline/verify, server/daemon) is exercised by the real binary in the CLI phase: one fixture per type, not the shape families")
 	run.Assume("no timestamp authority is configured (timestamps are property C10); the common --no-timestamp flag is therefore not enumerated")
 	run.Finish()
 }
